@@ -26,11 +26,13 @@ struct ShimFns {
     void (*load_vector)(void*, const void*);
     int (*vector_size)();
     void (*post_case)(void*);
+    void (*pseudo_set)(void*, int, uint16_t);
+    uint16_t (*pseudo_get)(void*, int);
 };
 #define ICASE_FNS(P)                                                                                                   \
     icase::ShimFns {                                                                                                   \
         P##new_core, P##set_state, P##get_state, P##mem, P##run, P##signal_interrupt, P##signal_vectored,              \
-            P##log_begin, P##log_end, P##decode_info, P##set_mmio_base, P##load_vector, P##vector_size, P##post_case                \
+            P##log_begin, P##log_end, P##decode_info, P##set_mmio_base, P##load_vector, P##vector_size, P##post_case, P##pseudo_set, P##pseudo_get                \
     }
 
 inline uint16_t base_word(uint32_t word_addr) {
